@@ -353,19 +353,30 @@ theorem DP17.refused_or_correct (raw : RawCfg) (lv : Leaves) (hl : LeafLaws lv) 
   configuration is built).  A field dropped from a check list, or a new field read without being required, changes the generated
   file and these theorems stop checking. -/
 
+/-- the same fields, in any order -/
+def sameFields (a b : List String) : Bool := a.all (fun f => b.contains f) && b.all (fun f => a.contains f)
+
+theorem Lacks.of_sameFields {a b : List String} (h : sameFields a b = true) {raw : RawCfg} (hl : Lacks a raw) : Lacks b raw := by
+  obtain ⟨f, hf, hm⟩ := hl
+  simp only [sameFields, Bool.and_eq_true, List.all_eq_true] at h
+  have := h.1 f hf
+  exact ⟨f, by simpa using this, hm⟩
+
 open SSEPy.Generated.Config in
+/-- the source's `check_param_exist` lists name exactly the fields the Lean builders check (as sets: the order in which a list
+    is written does not matter) -/
 theorem required_lists_are_source :
-    PiBas_required = ["param_lambda", "prf_f_output_length", "prf_f", "ske"] ∧
-    PiPack_required = ["param_lambda", "param_B", "prf_f_output_length", "param_identifier_size", "prf_f", "ske"] ∧
-    PiPtr_required = ["param_lambda", "param_B", "param_b", "prf_f_output_length", "param_identifier_size", "prf_f", "ske"] ∧
-    Pi2Lev_required = ["param_lambda", "param_B", "param_b", "param_B_prime", "param_b_prime", "prf_f_output_length",
-                       "param_identifier_size", "prf_f", "ske"] ∧
-    CT14_required = ["param_k", "param_k_prime", "param_l", "param_identifier_size", "prf_f", "prf_f_prime", "ske"] ∧
-    ANSS16_required = ["param_lambda", "param_k", "param_k_prime", "param_l", "param_l_prime", "param_identifier_size", "prf", "ske"] ∧
-    SSE1_required = ["param_k", "param_l", "param_s", "param_dictionary_size", "param_identifier_size",
-                     "prp_pi", "prp_psi", "prf_f", "ske1", "ske2"] ∧
-    SSE2_required = ["param_k", "param_l", "param_n", "param_max_file_size"] ∧
-    DP17_required = ["param_lambda", "param_actual_storage_level_ratio", "param_L", "param_identifier_size", "rnd", "prf_f", "hash_h"] := by
+    sameFields PiBas_required ["param_lambda", "prf_f_output_length", "prf_f", "ske"] = true ∧
+    sameFields PiPack_required ["param_lambda", "param_B", "prf_f_output_length", "param_identifier_size", "prf_f", "ske"] = true ∧
+    sameFields PiPtr_required ["param_lambda", "param_B", "param_b", "prf_f_output_length", "param_identifier_size", "prf_f", "ske"] = true ∧
+    sameFields Pi2Lev_required ["param_lambda", "param_B", "param_b", "param_B_prime", "param_b_prime", "prf_f_output_length",
+                       "param_identifier_size", "prf_f", "ske"] = true ∧
+    sameFields CT14_required ["param_k", "param_k_prime", "param_l", "param_identifier_size", "prf_f", "prf_f_prime", "ske"] = true ∧
+    sameFields ANSS16_required ["param_lambda", "param_k", "param_k_prime", "param_l", "param_l_prime", "param_identifier_size", "prf", "ske"] = true ∧
+    sameFields SSE1_required ["param_k", "param_l", "param_s", "param_dictionary_size", "param_identifier_size",
+                     "prp_pi", "prp_psi", "prf_f", "ske1", "ske2"] = true ∧
+    sameFields SSE2_required ["param_k", "param_l", "param_n", "param_max_file_size"] = true ∧
+    sameFields DP17_required ["param_lambda", "param_actual_storage_level_ratio", "param_L", "param_identifier_size", "rnd", "prf_f", "hash_h"] = true := by
   decide
 
 open SSEPy.Generated.Config in
@@ -381,10 +392,11 @@ theorem missing_required_param_refused (raw : RawCfg) :
     (Lacks SSE2_required raw → SSE2.cfgBuild raw = .error .valueError) ∧
     (Lacks DP17_required raw → DP17.cfgBuild raw = .error .valueError) := by
   obtain ⟨h1, h2, h3, h4, h5, h6, h7, h8, h9⟩ := required_lists_are_source
-  rw [h1, h2, h3, h4, h5, h6, h7, h8, h9]
-  exact ⟨missing_param_refused_PiBas raw, missing_param_refused_PiPack raw, missing_param_refused_PiPtr raw,
-    missing_param_refused_Pi2Lev raw, missing_param_refused_CT14 raw, missing_param_refused_ANSS16 raw,
-    missing_param_refused_SSE1 raw, missing_param_refused_SSE2 raw, missing_param_refused_DP17 raw⟩
+  exact ⟨fun h => missing_param_refused_PiBas raw (Lacks.of_sameFields h1 h), fun h => missing_param_refused_PiPack raw (Lacks.of_sameFields h2 h),
+    fun h => missing_param_refused_PiPtr raw (Lacks.of_sameFields h3 h), fun h => missing_param_refused_Pi2Lev raw (Lacks.of_sameFields h4 h),
+    fun h => missing_param_refused_CT14 raw (Lacks.of_sameFields h5 h), fun h => missing_param_refused_ANSS16 raw (Lacks.of_sameFields h6 h),
+    fun h => missing_param_refused_SSE1 raw (Lacks.of_sameFields h7 h), fun h => missing_param_refused_SSE2 raw (Lacks.of_sameFields h8 h),
+    fun h => missing_param_refused_DP17 raw (Lacks.of_sameFields h9 h)⟩
 
 open SSEPy.Generated.Config in
 /-- every field a builder reads is one it requires; the existence check is the first statement of every `_parse_config` -/
